@@ -37,6 +37,7 @@ from translate import c13_policy
 CORPUS_FILE = os.path.join(vlib.ROOT, 'corpus', 'C13', 'callables.py')
 KF_SELF = 'function-with-self-attribute'
 KF_CALL = 'static-or-class-call-dunder'
+KF_EQ = 'hashable-target-with-raising-eq'
 
 
 def generate():
@@ -136,6 +137,14 @@ ENTRIES = [
     ('U.EmptyRegistry().make', 'conv', XY_NOKW),
     ('functools.partial(U.Stack().push, 1)', 'conv', [((), None), ((), {'y': 5})]),
     ('U.Unhashable()', 'conv-nocache', XY),
+    ('U.IntCallable(2)', 'conv-nocache', XY),
+    ('U.IntCallable(1)', 'conv-nocache', XY_NOKW),
+    ('U.IntCallable(8)', 'conv-nocache', XY_NOKW),
+    ('U.IntCallable(5)', 'conv-nocache', XY_NOKW),
+    ('U.IntCallable(0)', 'conv-nocache', XY_NOKW),
+    ('U.AlwaysEq()', 'conv', XY),
+    ('U.Elementwise()', 'conv-nocache', XY),
+    ('U.RaisingEq()', 'conv-nocache', XY_NOKW),
     ('U.Slotted()', 'conv-nocache', XY_NOKW),
     ('U.WithMeta', 'conv', [((1,), None), ((1, 2), {'q': 3}), ((), None), ((), {})]),
     ('U.NTSub(1, 2).total', 'conv', [((1,), None), ((0,), {})]),
@@ -408,9 +417,20 @@ def measure(f, args, kwargs, options, scope, strict):
         b = 'NotBuiltin'
     d['builtin'] = b
     d['kwargs'] = 'KwNone' if kwargs is None else ('KwNonEmpty' if kwargs else 'KwEmpty')
+    d['measure_error'] = None
     with Quiet():
-        d['unsupported'] = bool(conversion.is_unsupported(f))
-        d['allowlisted'] = bool(conversion.is_allowlisted(f))
+        # the real chain evaluates these lazily; a predicate that raises on this target is reported by the
+        # oracle (through converted_call itself) when it is actually reached, not here
+        try:
+            d['unsupported'] = bool(conversion.is_unsupported(f))
+        except Exception as e:   # noqa
+            d['unsupported'] = False
+            d['measure_error'] = 'is_unsupported raised %r' % (e,)
+        try:
+            d['allowlisted'] = bool(conversion.is_allowlisted(f))
+        except Exception as e:   # noqa
+            d['allowlisted'] = False
+            d['measure_error'] = 'is_allowlisted raised %r' % (e,)
     d['user_requested'] = bool(eff.user_requested) if eff is not None else False
     d['internal'] = bool(eff.internal_convert_user_code) if eff is not None else False
     target = f
@@ -533,9 +553,10 @@ def observed_term(f, args, ev, raised, injected=None):
     if conv and inv and not cu:
         ent = conv[0][1]
         a = inv[0][1]
-        if ent is f or ent == f:
+        if ent is f:
             mode = 'TSelf'
-        elif ent is getattr(type(f), '__call__', None) or ent == getattr(type(f), '__call__', None):
+        elif ent is getattr(type(f), '__call__', None) or \
+                (inspect.ismethod(ent) and ent == getattr(type(f), '__call__', None)):
             mode = 'TClassCall'
         else:
             return None, 'converted an entity that is neither f nor type(f).__call__'
@@ -661,6 +682,7 @@ def run_call_case(env, spec, out):
     stage = spec.get('fault')
     with strict_mode(spec['strict']), ctx_of(spec['ctx']), Instr(stub_frame_builtins=True) as ins, OpCounter() as ops:
         d = measure(f, args, kwargs, options, scope, spec['strict'])
+        env.clear_logs()      # effects of the measurement itself (e.g. a target's __eq__) are not the wrapper's
         kw_in = None if kwargs is None else dict(kwargs)
         if stage is not None:
             stages = dict((s[0], s) for s in pipeline_stages())
@@ -684,7 +706,9 @@ def run_call_case(env, spec, out):
     injected = stage[1] if (stage is not None and hits) else None
     fault = fault_of(first, injected)
     obs, why = observed_term(f, args, first, raised, injected)
-    if obs is None:
+    if d.get('measure_error'):
+        pass            # situation not measurable on this target; the oracle below judges the call itself
+    elif obs is None:
         fails.append(('instrumentation: ' + why, None))
     else:
         out['cases'].append((situation_term(d, fault), obs, spec))
@@ -870,6 +894,22 @@ def _check(run, tmp):
             run.nontriv(('seq', expr, repr(first_cfg)))
         finally:
             env.close()
+    # ---------------------------------------------------------------- the same hashable object with a raising __eq__, twice
+    env = Env(tmp)
+    try:
+        from malt.impl import api as _api
+        o = env.U.RaisingEqHashable()
+        opts_ = mkopts(False, False)
+        with Quiet():
+            r1 = outcome_of(lambda: _api.converted_call(o, (1,), None, options=opts_))
+            r2 = outcome_of(lambda: _api.converted_call(o, (1,), None, options=opts_))
+        want_ = outcome_of(lambda: o(1))
+        run.count(2)
+        if r1 != want_ or r2 != want_:
+            out['failures'].append(('second call of the same hashable target whose __eq__ raises: direct %r, first %r, second %r'
+                                    % (want_, r1, r2), KF_EQ, dict(expr='U.RaisingEqHashable()', twice=True, args=(1,), kwargs=None)))
+    finally:
+        env.close()
     # ---------------------------------------------------------------- faults
     stages = pipeline_stages()
     excs = fault_exceptions()
